@@ -24,7 +24,7 @@ RULE = ("models x input patterns with at most 2 non-zero inputs (shock i unantic
         "length, method, terminal, guess) for runs that report success")
 MANIFEST_ENTRY = dict(level="exploration", design="DESIGN.md section 4 / C06",
     technique="bounded-exhaustive enumeration of generated non-linear/linear models x input patterns (deviation bound 2) x solver configurations; frame-wise residual substitution into the harness's own expression trees, first-order differential on linear models",
-    text="For 9 generated models every input pattern with <= 2 non-zero inputs over dates 1..3 (quick: all singles + listed pairs; thorough: all pairs) x span lengths {1,2,4,6} x methods x terminal x initial_guess is simulated; for every run that reports success and for EACH frame (information set) every transition equation, evaluated by the harness's own expression trees on that frame's path, holds in every simulated column (leads beyond the span read from the terminal condition in force: first-order continuation of the returned end state, or the input data); the final databox equals the last frame covering each date; shocks, exogenous variables, initial conditions and measurement variables are returned unchanged; on linear models the result equals the first-order simulation of the same inputs.",
+    text="For 9 generated models every input pattern with <= 2 non-zero inputs over dates 1..3 (quick: all singles + listed pairs; thorough: all pairs) x span lengths {1,2,4,6} x methods x terminal x initial_guess is simulated; for every run that reports success and for EACH frame (information set) every transition equation, evaluated by the harness's own expression trees on that frame's path, holds in every simulated column (leads beyond the span read from the terminal condition in force: first-order continuation of the returned end state, or the input data); the final databox equals the last frame covering each date; shocks, exogenous variables, initial conditions and measurement variables are returned unchanged; on linear models the result equals the first-order simulation of the same inputs; a two-variant model equals the two single-variant models.",
     note="Trusted: ref/expr evaluator; the first-order simulator for terminal continuation and the linear differential (C01). Runs that report failure (exception) are counted, not gated; every model must succeed on the zero-input case (floor).")
 ASSUMPTIONS = ["the first-order simulator is correct (C01)"]
 
@@ -301,6 +301,63 @@ def run_case(md, m, inputs, n_per, method, terminal, guess, res, fo_cache=None):
     return True
 
 
+def check_variants(md, m, res):
+    """two variants (different parameter value, different shocks) through the non-linear simulators == the two
+    single-variant models"""
+    import copy
+    pname = list(md["params"])[0]
+    md_b = copy.deepcopy(md)
+    md_b["params"][pname] = md["params"][pname] * 0.95
+    m_b = build(md_b)
+    with contextlib.redirect_stdout(io.StringIO()):
+        m2 = m.copy()
+        m2.alter_num_variants(2)
+        m2.assign(**{pname: [md["params"][pname], md_b["params"][pname]]})
+        m2.steady()
+        m2.solve()
+    n_per = 4
+    span = START >> (START + n_per - 1)
+    F = max_lead(md)
+    ext = START >> (START + n_per - 1 + F + 2)
+    shk = md["shocks"][0]
+    methods = ["stacked_time"] + (["period_by_period"] if F == 0 else [])
+    for method in methods:
+        case = {"model": md["name"], "inputs": [["variants"]], "n_per": n_per, "method": method, "terminal": "first_order", "guess": "first_order"}
+
+        def bad(check, detail, **extra):
+            res.violation(check, {"model": md["name"], "method": method, "what": "variants"}, case, "%s %s variants: %s" % (md["name"], method, detail))
+        try:
+            dbs = [ir.Databox.steady(m, ext), ir.Databox.steady(m_b, ext)]
+            dbs[0][shk][START] = 0.05
+            dbs[1][shk][START + 1] = -0.04
+            dbs[1]["ant_" + shk][START + 2] = 0.03
+            kw = dict(method=method, solver_settings={"step_tolerance": float("inf")})
+            with contextlib.redirect_stdout(io.StringIO()):
+                outs = [m.simulate(dbs[0], span, **kw), m_b.simulate(dbs[1], span, **kw)]
+                db2 = ir.Databox.steady(m2, ext)
+                for n_ in (shk, "ant_" + shk):
+                    cols = np.column_stack([np.nan_to_num(dbs[k][n_].get_data_from_until((START, START + n_per - 1))[:, 0]) if n_ in dbs[k] else np.zeros(n_per) for k in range(2)])
+                    db2[n_] = ir.Series(start=START, values=cols)
+                out2 = m2.simulate(db2, span, **kw)
+            res.ev(3)
+            res.nt((md["name"], "variants", method))
+            res.count("variant_runs")
+            for v in md["vars"]:
+                a2 = out2[v].get_data_from_until((START, START + n_per - 1))
+                for k in range(2):
+                    col = a2[:, k] if a2.shape[1] > 1 else a2[:, 0]
+                    b = outs[k][v].get_data_from_until((START, START + n_per - 1))[:, 0]
+                    if not np.allclose(col, b, rtol=1e-7, atol=1e-8):
+                        bad("variant_mismatch", "%s variant %d: two-variant run %s, single-variant model %s" % (v, k, np.round(col, 8).tolist(), np.round(b, 8).tolist()))
+                        break
+        except Exception as e:
+            msg = str(e)
+            if "failed to complete" in msg or "Cannot make" in msg:
+                res.count("reported_failure")
+                continue
+            bad("exception", "%s: %s" % (type(e).__name__, msg[:300]))
+
+
 def configs(md, quick):
     backward = max_lead(md) == 0
     out = []
@@ -320,6 +377,7 @@ def shard(item, res, ctx):
     m = build(md)
     S = input_singles(md)
     if item["part"] == "singles":
+        check_variants(md, m, res)
         patterns = [()] + [(s,) for s in S]
     else:
         pairs = list(itertools.combinations(S, 2))
@@ -358,7 +416,7 @@ def run(ctx, total, info):
     info["exhaustive"] = True
     info["bound_completed"] = 2
     info["floors"] = {"successful_runs": (len(total.nontrivial), 700), "stacked_time": (c.get("success_stacked_time", 0), 650),
-                      "period_by_period": (c.get("success_period_by_period", 0), 50)}
+                      "period_by_period": (c.get("success_period_by_period", 0), 50), "variant_runs": (c.get("variant_runs", 0), 9)}
     for md in models():
         info["floors"]["zero_input_" + md["name"]] = (c.get("zero_input_success_" + md["name"], 0), 4)
 
